@@ -39,6 +39,8 @@ COLS = 'BCDEFGHI'
 
 # -- value coding (cases are JSON) ----------------------------------------------
 def dec(x):
+    if isinstance(x, list):
+        return tuple(x)          # an error value: ['e', '#DIV/0!']
     if x is None:
         return BLANK
     if isinstance(x, bool):
@@ -182,6 +184,14 @@ def match_cases(tier):
                 if tier == 'thorough' or sp == 'ref-row':
                     yield ['MATCH', v, 'omit', sp, vsp]
                 yield ['MATCH', v[::-1], -1, sp, vsp]
+    # an error value among the keys, in a cell the search does not need: it is not an answer and not a reason to fail
+    for n in range(1, 4):
+        for v in itertools.product([1, 2, 'a', True], repeat=n):
+            for pos in range(n + 1):
+                for err in (['e', '#DIV/0!'], ['e', '#N/A']):
+                    w = list(v[:pos]) + [err] + list(v[pos:])
+                    for sp in (['ref-row', 'ref-col', 'lit-row'] if tier == 'quick' else spells):
+                        yield ['MATCH', w, 0, sp, 'lit']
     for n in range(1, 5):
         for v in itertools.product(EXACT_SYM, repeat=n):
             for sp in spells:
